@@ -73,14 +73,15 @@ Drop(r) == [r EXCEPT !.cab = FALSE,
 Hits(tk) == {t \in TS : tm[t].cab /\ tm[t].tok = tk}
 
 \* cancel() answers true exactly for a token the pool still holds: a periodic timer, or a one-shot that has not fired (or is cancelling
-\* itself from its own callback); whatever the answer, nothing with that token is armed when cancel() returns (true => it was disarmed
+\* itself from its own callback -- there the header does not say; both answers are accepted, the effect is the same); whatever the answer, nothing with that token is armed when cancel() returns (true => it was disarmed
 \* and never fires again, see NoFireAfterCancel; false => there was nothing to prevent)
 Cancel(tk) ==
   /\ InCtx
   /\ IF Hits(tk) = {} THEN /\ ret' = FALSE /\ UNCHANGED tm
                            /\ cancelBad' = (cancelBad \/ \E t \in TS : tm[t].tok = tk /\ tm[t].en)
      ELSE LET t == CHOOSE x \in Hits(tk) : TRUE IN
-          /\ ret' = TRUE /\ tm' = [tm EXCEPT ![t] = Drop(@)]
+          /\ ret' \in (IF t = cur /\ tm[t].mode = "after" THEN BOOLEAN ELSE {TRUE})     \* own token from the own doAfter callback: open
+          /\ tm' = [tm EXCEPT ![t] = Drop(@)]
           /\ cancelBad' = (cancelBad \/ Drop(tm[t]).en \/ ~(tm[t].mode = "every" \/ tm[t].k = 0 \/ t = cur))
   /\ UNCHANGED <<now, lastId>> /\ Frame
 
@@ -177,8 +178,9 @@ NeverEarly == lastfire.t # 0 => lastfire.time >= lastfire.at + (IF lastfire.mode
 \* is skipped, a one-shot is not forgotten).  Timers created with a non-positive delay after the pass began are not concerned.
 NoSkip == phase = "idle" /\ lp = "run" => \A t \in TS : tm[t].en /\ tm[t].d >= 1 => passNow < tm[t].at + (tm[t].k + 1) * tm[t].d
 Armed == \A t \in TS : tm[t].cab /\ ~tm[t].can /\ (tm[t].mode = "every" \/ tm[t].k = 0) => tm[t].en
-\* within one pass the intended deadlines are served in order
-DeadlineOrder == lastfire.t # 0 => lastfire.prev <= lastfire.gdl
+\* within one pass the intended deadlines are served in order (a doAt timer created during the pass with a time point in the past is
+\* not concerned)
+DeadlineOrder == lastfire.t # 0 /\ lastfire.d >= 1 => lastfire.prev <= lastfire.gdl
 CancelTruth == ~cancelBad
 \* nothing is armed once the pool is gone; when the loop has stopped as well every timer object has been deleted
 QuietAfterEnd == pool = "gone" => /\ \A t \in TS : ~tm[t].en /\ ~tm[t].cab
